@@ -33,8 +33,15 @@ def base_configs(ctx):
         cfg = dict(n=rng.choice([16, 24, 32]), N=rng.choice([5, 6, 7, 8, 9, 10]), T=rng.choice([1, 1, 2]),
                    renorm=rng.choice([-1, 0, 0, 2, 3, 5]), wake=rng.random() < 0.8, dynrf=rng.random() < 0.3,
                    outstep=1, h5save=1, tracking=None, verbose=False)
+        cfg["linrf"] = rng.choice([0, 1])
         if i == 0:
             cfg.update(wake=True, dynrf=False)
+        if i == 1:
+            # always one deterministic (noise-free) phase-modulated sinusoidal RF: identical inputs must give
+            # identical outputs, and the repeat variant compares every physics dataset
+            cfg.update(dynrf=True, linrf=0)
+        if i == 2:
+            cfg.update(dynrf=True, linrf=1)
         res.append(cfg)
     return res
 
